@@ -244,18 +244,31 @@ def _prove_instance(obl, case, tier, known_witnesses, timeout_ms=60000):
                     res["lite_vcs"] = res.get("lite_vcs", 0) + 1
             if r == z3.unknown:
                 r = s.check()
-            if r == z3.unknown and "arith_solver" not in budget:
-                # second opinion: z3's legacy arithmetic solver (no nla::core) on the same query; only an `unsat` is taken from it
-                z3.set_param("smt.arith.solver", 2)
+            if r == z3.unknown:
+                # second opinion from z3's OTHER arithmetic solver on the same query (legacy solver 2 has no nla::core; the default 6 finds
+                # models of nonlinear queries more readily).  An `unsat` proves the VC; a `sat` is a counterexample like any other (replayed).
+                primary = int(budget.get("arith_solver", 6))
+                other = 2 if primary != 2 else 6
+                z3.set_param("smt.arith.solver", other)
                 try:
-                    alt = _solver(min(timeout_ms, 20000))
+                    alt = _solver(min(timeout_ms, 15000))
                     alt.add(*hyps)
                     alt.add(z3.Not(g))
-                    if alt.check() == z3.unsat:
+                    ra = alt.check()
+                    if ra == z3.unsat:
                         r = z3.unsat
                         res["legacy_vcs"] = res.get("legacy_vcs", 0) + 1
+                    elif ra == z3.sat and not known_witnesses:
+                        m = alt.model()
+                        res.update(verdict="refuted", failed=[lab], values=_model_values(m, inputs),
+                                   exc=(f"{type(exc).__name__}: {exc}" if exc is not None and exc != "reject" else None), tb=tb,
+                                   solver_output=f"sat (second-opinion solver); model: {_trim(str(m))}")
+                        res["solver_s"] = time.time() - t0
+                        res["stubs_used"] = sorted(stubs_used)
+                        s.pop()
+                        return res
                 finally:
-                    z3.set_param("smt.arith.solver", 6)
+                    z3.set_param("smt.arith.solver", primary)
             s.set("timeout", timeout_ms)
             if r == z3.sat:
                 # known finding?  ask for a counterexample outside every listed witness predicate
